@@ -4,6 +4,7 @@ import Brax.Lemmas.Norm
 import Mathlib.Tactic.Ring
 import Mathlib.Tactic.FieldSimp
 import Mathlib.Tactic.LinearCombination
+import Mathlib.Tactic.IntervalCases
 /-!
 # C09 — Transforms, motions, forces and inertias obey rigid-body spatial algebra
 
@@ -600,6 +601,135 @@ theorem fromTo_rotates_partial (v1 v2 : V3 ℝ) (h1 : V3.dot v1 v1 = 1) (h2 : V3
         = k * k * (a * a + b * b + d * d + e * e) := by intros; ring
     rw [hfac, hnorm]
     exact hk
+
+/-- the fixed axis `jax.random.uniform(jax.random.PRNGKey(0), (3,))`, as folded into the traced `from_to` -/
+def fromToRnd : V3 ℝ :=
+  ⟨(41845711171638644287895658635534346103668212890625e-50 : ℝ),
+   (2162954546055113613789444571011699736118316650390625e-52 : ℝ),
+   (96532146111899752582985456683672964572906494140625e-50 : ℝ)⟩
+
+/-- `v1_o = rnd − (rnd·v₁) v₁`: the part of `rnd` orthogonal to `v₁` -/
+def antiAxis (r v1 : V3 ℝ) : V3 ℝ :=
+  ⟨r.x - (r.x * v1.x + r.y * v1.y + r.z * v1.z) * v1.x, r.y - (r.x * v1.x + r.y * v1.y + r.z * v1.z) * v1.y,
+   r.z - (r.x * v1.x + r.y * v1.y + r.z * v1.z) * v1.z⟩
+
+/-- a half turn about an axis orthogonal to the unit vector `v` flips it -/
+theorem rotate_pure_orth {K : Type} [Field K] (v o : V3 K) (ho : o.x * v.x + o.y * v.y + o.z * v.z = 0) :
+    Gen.rotate v ⟨0, o.x, o.y, o.z⟩ = V3.smul (-(o.x * o.x + o.y * o.y + o.z * o.z)) v := by
+  simp only [Gen.rotate, V3.smul]
+  congr 1
+  · linear_combination (2 * o.x) * ho
+  · linear_combination (2 * o.y) * ho
+  · linear_combination (2 * o.z) * ho
+
+/-- **`from_to` on exactly antiparallel unit vectors** (the `w < 1e-6` branch): whenever the fixed
+pseudo-random axis is not parallel to `v₁`, the result is a unit quaternion that rotates `v₁` onto `−v₁`. -/
+theorem fromTo_antiparallel (v1 : V3 ℝ) (h1 : V3.dot v1 v1 = 1)
+    (hax : V3.dot (antiAxis fromToRnd v1) (antiAxis fromToRnd v1) ≠ 0) :
+    Gen.rotate v1 (Gen.fromTo v1 ⟨-v1.x, -v1.y, -v1.z⟩) = ⟨-v1.x, -v1.y, -v1.z⟩
+      ∧ Q4.normSq (Gen.fromTo v1 ⟨-v1.x, -v1.y, -v1.z⟩) = 1 := by
+  simp only [V3.dot] at h1
+  set o := antiAxis fromToRnd v1 with hodef
+  have hoo : V3.dot o o = o.x * o.x + o.y * o.y + o.z * o.z := rfl
+  rw [hoo] at hax
+  have hpos : 0 < o.x * o.x + o.y * o.y + o.z * o.z :=
+    lt_of_le_of_ne (add_nonneg (add_nonneg (mul_self_nonneg _) (mul_self_nonneg _)) (mul_self_nonneg _)) (Ne.symm hax)
+  have hs : 0 < Real.sqrt (o.x * o.x + o.y * o.y + o.z * o.z) := Real.sqrt_pos.mpr hpos
+  have hss : Real.sqrt (o.x * o.x + o.y * o.y + o.z * o.z) * Real.sqrt (o.x * o.x + o.y * o.y + o.z * o.z)
+      = o.x * o.x + o.y * o.y + o.z * o.z := Real.mul_self_sqrt (le_of_lt hpos)
+  have horth : o.x * v1.x + o.y * v1.y + o.z * v1.z = 0 := by
+    simp only [hodef, antiAxis]
+    linear_combination (-(fromToRnd.x * v1.x + fromToRnd.y * v1.y + fromToRnd.z * v1.z)) * h1
+  have ht1 : 1 + (v1.x * -v1.x + v1.y * -v1.y + v1.z * -v1.z) = 0 := by linear_combination (-1 : ℝ) * h1
+  have hlt : (0 : ℝ) < 1e-6 := by norm_num
+  have hq : Gen.fromTo v1 ⟨-v1.x, -v1.y, -v1.z⟩
+      = ⟨0 * (1 / Real.sqrt (o.x * o.x + o.y * o.y + o.z * o.z)), o.x * (1 / Real.sqrt (o.x * o.x + o.y * o.y + o.z * o.z)),
+         o.y * (1 / Real.sqrt (o.x * o.x + o.y * o.y + o.z * o.z)), o.z * (1 / Real.sqrt (o.x * o.x + o.y * o.y + o.z * o.z))⟩ := by
+    simp only [Gen.fromTo, ht1, hlt, decide_true, if_true, HasSqrt.sqrt, hodef, antiAxis, fromToRnd]
+    congr 1 <;> ring_nf
+  have hk : 1 / Real.sqrt (o.x * o.x + o.y * o.y + o.z * o.z) * (1 / Real.sqrt (o.x * o.x + o.y * o.y + o.z * o.z))
+      * (o.x * o.x + o.y * o.y + o.z * o.z) = 1 := by
+    have hne : Real.sqrt (o.x * o.x + o.y * o.y + o.z * o.z) ≠ 0 := ne_of_gt hs
+    nth_rewrite 3 [← hss]
+    field_simp
+    exact div_self (by rw [show o.x ^ 2 + o.y ^ 2 + o.z ^ 2 = o.x * o.x + o.y * o.y + o.z * o.z by ring]; exact hne)
+  constructor
+  · rw [hq, rotate_scale v1 ⟨0, o.x, o.y, o.z⟩, rotate_pure_orth v1 o horth]
+    simp only [V3.smul]
+    congr 1
+    · linear_combination (-v1.x) * hk
+    · linear_combination (-v1.y) * hk
+    · linear_combination (-v1.z) * hk
+  · rw [hq]
+    simp only [Q4.normSq]
+    linear_combination hk
+
+/-- the fixed axis is not parallel to any lattice direction of `[-3,3]³` (first two coordinates suffice) -/
+theorem rnd_not_lattice_xy (a b : ℤ) (ha : |a| ≤ 3) (hb : |b| ≤ 3)
+    (h : fromToRnd.x * (b : ℝ) = fromToRnd.y * (a : ℝ)) : a = 0 ∧ b = 0 := by
+  rw [abs_le] at ha hb
+  obtain ⟨ha1, ha2⟩ := ha
+  obtain ⟨hb1, hb2⟩ := hb
+  simp only [fromToRnd] at h
+  interval_cases a <;> interval_cases b <;> first | exact ⟨rfl, rfl⟩ | (exfalso; norm_num at h)
+
+/-- **`from_to` on every antiparallel pair of normalised lattice directions of `[-3,3]³`** (the property's
+own quantifier for this construction): the result is a unit quaternion rotating `v₁` onto `−v₁`. -/
+theorem fromTo_antiparallel_lattice (a b c : ℤ) (ha : |a| ≤ 3) (hb : |b| ≤ 3) (hc : |c| ≤ 3)
+    (hne : ¬ (a = 0 ∧ b = 0 ∧ c = 0)) :
+    let s := Real.sqrt ((a : ℝ) * a + b * b + c * c)
+    let v1 : V3 ℝ := ⟨a / s, b / s, c / s⟩
+    Gen.rotate v1 (Gen.fromTo v1 ⟨-v1.x, -v1.y, -v1.z⟩) = ⟨-v1.x, -v1.y, -v1.z⟩
+      ∧ Q4.normSq (Gen.fromTo v1 ⟨-v1.x, -v1.y, -v1.z⟩) = 1 := by
+  intro s v1
+  have hN : 0 < (a : ℝ) * a + b * b + c * c := by
+    have h0 : (0 : ℝ) ≤ (a : ℝ) * a + b * b + c * c :=
+      add_nonneg (add_nonneg (mul_self_nonneg _) (mul_self_nonneg _)) (mul_self_nonneg _)
+    rcases eq_or_lt_of_le h0 with h | h
+    · exfalso
+      apply hne
+      have ha0 : (a : ℝ) * a = 0 := by nlinarith [mul_self_nonneg (a : ℝ), mul_self_nonneg (b : ℝ), mul_self_nonneg (c : ℝ)]
+      have hb0 : (b : ℝ) * b = 0 := by nlinarith [mul_self_nonneg (a : ℝ), mul_self_nonneg (b : ℝ), mul_self_nonneg (c : ℝ)]
+      have hc0 : (c : ℝ) * c = 0 := by nlinarith [mul_self_nonneg (a : ℝ), mul_self_nonneg (b : ℝ), mul_self_nonneg (c : ℝ)]
+      exact ⟨by exact_mod_cast mul_self_eq_zero.mp ha0, by exact_mod_cast mul_self_eq_zero.mp hb0,
+        by exact_mod_cast mul_self_eq_zero.mp hc0⟩
+    · exact h
+  have hs : 0 < s := Real.sqrt_pos.mpr hN
+  have hss : s * s = (a : ℝ) * a + b * b + c * c := Real.mul_self_sqrt (le_of_lt hN)
+  have hsne : s ≠ 0 := ne_of_gt hs
+  have h1 : V3.dot v1 v1 = 1 := by
+    simp only [V3.dot, v1]
+    field_simp
+    nlinarith [hss]
+  apply fromTo_antiparallel v1 h1
+  intro hzero
+  simp only [V3.dot] at hzero
+  set o := antiAxis fromToRnd v1 with hodef
+  have hx : o.x = 0 := mul_self_eq_zero.mp (by nlinarith [mul_self_nonneg o.x, mul_self_nonneg o.y, mul_self_nonneg o.z])
+  have hy : o.y = 0 := mul_self_eq_zero.mp (by nlinarith [mul_self_nonneg o.x, mul_self_nonneg o.y, mul_self_nonneg o.z])
+  have hz : o.z = 0 := mul_self_eq_zero.mp (by nlinarith [mul_self_nonneg o.x, mul_self_nonneg o.y, mul_self_nonneg o.z])
+  simp only [hodef, antiAxis, v1] at hx hy hz
+  -- rnd = t·v1, hence rnd × (a,b,c) = 0
+  set t := fromToRnd.x * ((a : ℝ) / s) + fromToRnd.y * ((b : ℝ) / s) + fromToRnd.z * ((c : ℝ) / s) with htdef
+  have hxy : fromToRnd.x * (b : ℝ) = fromToRnd.y * (a : ℝ) := by
+    have e1 : fromToRnd.x = t * ((a : ℝ) / s) := by linarith
+    have e2 : fromToRnd.y = t * ((b : ℝ) / s) := by linarith
+    rw [e1, e2]; ring
+  have hxz : fromToRnd.x * (c : ℝ) = fromToRnd.z * (a : ℝ) := by
+    have e1 : fromToRnd.x = t * ((a : ℝ) / s) := by linarith
+    have e3 : fromToRnd.z = t * ((c : ℝ) / s) := by linarith
+    rw [e1, e3]; ring
+  obtain ⟨ha0, hb0⟩ := rnd_not_lattice_xy a b ha hb hxy
+  apply hne
+  refine ⟨ha0, hb0, ?_⟩
+  rw [ha0] at hxz
+  have hrx : fromToRnd.x ≠ 0 := by simp only [fromToRnd]; norm_num
+  have : (c : ℝ) = 0 := by
+    have : fromToRnd.x * (c : ℝ) = 0 := by rw [hxz]; simp
+    rcases mul_eq_zero.mp this with h | h
+    · exact absurd h hrx
+    · exact h
+  exact_mod_cast this
 
 end FromTo
 
